@@ -2,7 +2,7 @@ SPECIFICATION Spec
 CONSTANTS
   MaxLen = 6
   Pairs = FALSE
-  ValSet = {0, 1, 2}
+  ValSet <- SignedSet
   ValSet2 = {0, 1}
   Elem <- ElemDef
   Elem2 <- Elem2Def
